@@ -11,4 +11,5 @@ CONSTANTS
   FixInvalidCorrected = FALSE
   FixValidToInvalid = FALSE
   AvoidWindows = FALSE
+  ProcRewritesName = FALSE
 CHECK_DEADLOCK FALSE
